@@ -4,10 +4,20 @@
 # scratch copy of /repo's HEAD and all twenty checks are run against the copy. An edit that makes a check report a violation
 # is a FALSE ALARM; benign/RESULTS.json records which edits are known to do so (and why). Exit 1 if an edit that is not
 # listed there raises an alarm.
+# The canaries of benign/canaries (an edit the tolerance reads through COMBINED with a property-breaking change) are run as
+# well and must be reported; `benigntest.sh canaries` runs only those.
 set -u
 J=4; [ "${1:-}" = "-j" ] && J=$2
 cd /verif
 rm -rf /tmp/cm2; mkdir -p /tmp/cm2
+crc=0
+for l in benign/canaries/L*.diff; do
+  id=$(basename $l .diff)
+  GOVC_NO_WITNESS=1 tools/catch_patch.sh $id /verif/$l > /dev/null 2>&1
+  if python3 -c "import json,sys; r=json.load(open('/tmp/cm2/$id.json')); sys.exit(0 if r.get('caught_by') else 1)"; then echo "canary $id reported"; else echo "CANARY-NOT-REPORTED $id"; crc=1; fi
+  rm -f /tmp/cm2/$id.json
+done
+if [ "${1:-}" = "canaries" ]; then exit $crc; fi
 for d in benign/C*; do id=$(basename $d); echo "$id /verif/$d/patch.diff"; done | GOVC_NO_WITNESS=1 xargs -P $J -L 1 tools/catch_patch.sh > /tmp/cm2/all.log 2>&1
 python3 - <<'PY'
 import json,glob,os,sys
@@ -26,3 +36,6 @@ for f in sorted(glob.glob('/tmp/cm2/C*.json')):
 print(f'{quiet}/{n} harmless edits raise no alarm; {bad} unexpected')
 sys.exit(1 if bad else 0)
 PY
+rc=$?
+[ $crc -ne 0 ] && exit 1
+exit $rc
